@@ -113,7 +113,9 @@ func genC18(g gen.G) C18Case {
 		nl = "\r\n"
 	}
 	for i := 0; i < n; i++ {
-		c.Insert += gen.Pick(g, []string{"", "", "# comment", "// comment", "# čomment é 日本", "  ", "\t# x", "/* c */"}) + nl
+		c.Insert += gen.Pick(g, []string{"", "", "# comment", "// comment", "# čomment é 日本", "  ", "\t# x", "/* c */",
+			// long lines: positions move across any fixed-size window or buffer boundary
+			"# " + strings.Repeat("long comment é ", 9), "// " + strings.Repeat("x", 260)}) + nl
 	}
 	return c
 }
